@@ -172,9 +172,8 @@ func probe(srvs []*proj.Server, pr *kit.Prepared, c kit.Case, base *plan.Plan) *
 }
 
 func genOp(t *rapid.T) Case {
-	names := proj.Names()
 	c := Case{}
-	c.Project = rapid.SampledFrom(names).Draw(t, "project")
+	c.Project = kit.DrawProject(t)
 	srvs, err := kit.Servers(c.Project)
 	if err != nil {
 		t.Fatalf("harness: %v", err)
